@@ -307,6 +307,7 @@ def draw_case(run, idx, cfgspec, runs, seed):
     def model(xx):
         if isinstance(xx, dict):
             inputs.append(xx)
+            clock.log.append(("model", dict(xx)))       # (the imputer proxy reads the inputs of one impute call off this log)
             return {"output": 0.0}
         return [{"output": 0.0} for _ in xx]
 
@@ -332,7 +333,11 @@ def draw_case(run, idx, cfgspec, runs, seed):
                 out[j] = src.get((j, xi[f]), None)
         return out
     if kind in ("sage", "pfi", "batch"):
-        st = BatchStorage(store_targets=True)
+        if kind != "batch" and idx % 2 == 0:       # deque-backed storages (IntervalStorage) next to list-backed ones
+            from ixai.storage import IntervalStorage
+            st = IntervalStorage(size=m, store_targets=True)
+        else:
+            st = BatchStorage(store_targets=True)
         for t, r in enumerate(rows):
             st.update(r, t)
         imp = ImputerProxy(MarginalImputer(model, strat, st), clock)
@@ -443,6 +448,8 @@ def draw_case(run, idx, cfgspec, runs, seed):
                 if r:
                     fails.append(("row-independence", r))
     run.count("cell-tests", ct.done)
+    run.count("draw-level-row-cells", sum(len(c_) for c_ in rowc.values()))
+    run.count("draw-level-pair-cells", sum(len(c_) for c_ in pairs.values()))
     run.notes[f"draws {tag}"] = {"orders_seen": len(orders), "row_families": len(rowc), "pair_families": len(pairs),
                                  "min_p": ct.min_p, "mdd": ct.max_mdd}
     for o in orders:
@@ -934,6 +941,7 @@ def main(run):
     run.assumptions = ["calls are independent draws (storage frozen with update_storage=False, generators seeded once per configuration)",
                        "false-alarm probability <= 1e-9 per run; a bias below the minimal detectable deviation in notes can be missed",
                        "storage sizes / games other than the listed ones are not exercised"]
+    run.require_count("draw-level-row-cells", "draw-level-pair-cells")
     run.require("ixai/explainer/sage/incremental.py:IncrementalSage.explain_one", "ixai/explainer/pfi.py:IncrementalPFI.explain_one",
                 "ixai/explainer/sage/batch.py:BatchSage.explain_many", "ixai/explainer/sage/batch.py:BatchSage.explain_many_original",
                 "ixai/imputer/marginal_imputer.py:MarginalImputer.impute")
